@@ -218,6 +218,8 @@ def gen_scenario(rng, sid, profile):
 
     def write(side, s):
         n = sizes()
+        if profile in ('close', 'mixed', 'sendfail') and rng.random() < 0.08:
+            n = 0          # a zero-length Write: accepted on an open stream (nothing sent), refused on a closed one
         tag[0] += 1
         steps.append('W:%s:%d:%s' % (side, s, pattern(tag[0], n)))
         inflight['B' if side == 'A' else 'A'] += (n + unit - 1) // unit
@@ -253,6 +255,10 @@ def gen_scenario(rng, sid, profile):
                 side = rng.choice('AAB')
                 steps.append('X:%s:%d' % (side, s))
                 inflight['B' if side == 'A' else 'A'] += 1
+                if rng.random() < 0.3:
+                    # writes after the close, the empty one included, must fail
+                    tag[0] += 1
+                    steps.append('W:%s:%d:%s' % (side, s, pattern(tag[0], rng.choice([0, 0, 1]))))
             elif profile in ('fault', 'mixed'):
                 q = rng.random()
                 if q < 0.25:
